@@ -122,7 +122,7 @@ func (m MSpec) match(name string) bool {
 	}
 	v = m.match1(name)
 	reMu.Lock()
-	if len(matchMemo) > 2000000 {
+	if len(matchMemo) > 300000 {
 		matchMemo = map[matchKey]bool{}
 	}
 	matchMemo[k] = v
@@ -181,7 +181,7 @@ func (a AggSpec) outName(name string) string {
 	}
 	v = a.outName1(name)
 	reMu.Lock()
-	if len(outMemo) > 1000000 {
+	if len(outMemo) > 300000 {
 		outMemo = map[outKey]string{}
 	}
 	outMemo[k] = v
